@@ -1,6 +1,6 @@
 """C07 - Pool.run raises IndexError('pop from empty list') on a late result - test_retries_x2 scenario.
 
-HONEST NOTE: this script did NOT reproduce the IndexError on this machine (0 of 40 runs on the original
+HONEST NOTE: this script did NOT reproduce the IndexError on this machine (0 of 50 runs on the original
 tree); it prints NOT REPRODUCED on both trees.  The deterministic real-OS reproduction of the same defect is
 fixed_c07_pool_late_result_slow_source.py.
 
